@@ -381,6 +381,15 @@ class MixinAnalysis:
                         construct="attach of %s" % label(s.x)), "children.setter", trace))
                 else:
                     ks.append(s.x[2])
+            if outcome[0] == "return" and trace_main is trace:
+                visited = [ev.outcome for ev in trace if ev.kind == "ITER" and ev.a == xs and ev.func is func]
+                assigned = [ev.recv[2] for ev in trace if ev.kind == "ENTER" and ev.func.kind == "setter" and ev.func.srcname == "parent"
+                            and ev.recv[0] == "elem" and ev.recv[1] == xs and ev.args and ev.args[0] == nrole]
+                if visited != assigned:
+                    out.setdefault(("E5", func.where, "skipped"), (Problem(
+                        "E5", att[0].wl, "not every new child visited by the attach loop is assigned `child.parent = node` "
+                        "(visited %s, assigned %s): the node's children are not tuple(xs)" % (visited, assigned),
+                        construct="attach loop skips children"), "children.setter", trace))
             if ks != sorted(ks) or len(set(ks)) != len(ks):
                 out.setdefault(("E5", func.where, "order"), (Problem(
                     "E5", att[0].wl, "children are not attached one by one in the given order", construct="attach order"),
